@@ -34,6 +34,9 @@ mod cloud;
 #[cfg(feature = "server-git")]
 mod gitsync;
 
+#[cfg(gothenburgbitfactory_taskchampion_verif)]
+pub mod verif;
+
 pub use config::*;
 pub use types::*;
 
